@@ -143,6 +143,26 @@ pub fn traversal_case(cx: &mut Ctx, n: u64, case: &Value) {
         let seen = seen.into_inner();
         eq("map_visits_traversal", "map_coords visits coords_iter order", seen == want_coords, format!("{seen:?}"));
     }
+    if !has_rect {
+        // try_map_coords visits in traversal order as well ...
+        let seen = std::cell::RefCell::new(vec![]);
+        let _: Result<Geometry<f64>, ()> = gg.try_map_coords(|c| { seen.borrow_mut().push(c); Ok(c) });
+        let seen = seen.into_inner();
+        eq("map_visits_traversal", "try_map_coords visits coords_iter order", seen == want_coords, format!("{seen:?}"));
+        // ... and a function that fails on a SET of coordinates (by value) reports the failure of the first of them in traversal
+        // order: the error carries the coordinate, the failing set is a tail of the traversal
+        let bits = |c: Coord<f64>| (c.x.to_bits(), c.y.to_bits());
+        for k in [0usize, want_coords.len() / 3, want_coords.len() / 2, (2 * want_coords.len()) / 3, want_coords.len().saturating_sub(1)] {
+            if k >= want_coords.len() { continue; }
+            let failing: std::collections::BTreeSet<(u64, u64)> = want_coords[k..].iter().map(|c| bits(*c)).collect();
+            let first = want_coords.iter().find(|c| failing.contains(&bits(**c))).copied().unwrap();
+            let r: Result<Geometry<f64>, (u64, u64)> = gg.try_map_coords(|c| if failing.contains(&bits(c)) { Err(bits(c)) } else { Ok(apply(&f, c)) });
+            eq("try_map_coords_first_failure", &format!("try_map_coords failing on the coordinates from position {k} on"), r == Err(bits(first)), format!("{r:?} want Err({first:?})"));
+            if let Some((r, _)) = try_in_place!(|c| if failing.contains(&bits(c)) { Err(bits(c)) } else { Ok(apply(&f, c)) }) {
+                eq("try_map_coords_first_failure", &format!("try_map_coords_in_place failing on the coordinates from position {k} on"), r == Err(bits(first)), format!("{r:?} want Err({first:?})"));
+            }
+        }
+    }
     // a function failing at its k-th call: Err for every k below the number of calls, Ok otherwise
     let calls = { let k = std::cell::Cell::new(0usize); let _ = gg.map_coords(|c| { k.set(k.get() + 1); c }); k.get() };
     for k in 0..=calls {
